@@ -32,9 +32,10 @@ Definition C (k : cls) (prm w : Z) : cfg Z := {| c_cls := k; c_prm := prm; c_win
 Definition oid (o : option (arr Z)) : Z := match o with Some a => a_id Z a | None => -1 end.
 (* the library, as far as the protocol can see it: results are named by their arguments *)
 Definition cmpZ (c : cfg Z) (r : arr Z) (a : option (arr Z)) (X : arr Z) : Z * Z * Z := (a_id Z r, oid a, a_id Z X).
-(* assumed: MMD's kernel precomputation raises exactly for >= 3 axes (cdist) and for an empty sample with chunk_size None (range step 0) *)
+(* assumed: MMD's kernel precomputation raises exactly for an empty sample with chunk_size None (range step 0);
+   inputs with more than two axes no longer reach it *)
 Definition failsZ (c : cfg Z) (X : arr Z) : bool :=
-  (3 <=? length (a_shape Z X))%nat || (match a_shape Z X with O :: _ => true | _ => false end && (c_prm Z c =? 0)).
+  match a_shape Z X with O :: _ => true | _ => false end && (c_prm Z c =? 0).
 (* assumed: np.sort returns an ndarray of the same shape *)
 Definition sortZ (X : arr Z) : arr Z := {| a_nd := true; a_attr := true; a_shape := a_shape Z X; a_id := a_id Z X + 100000 |}.
 (* assumed: np.array(queue) succeeds exactly when all elements have one shape *)
@@ -596,7 +597,7 @@ def run(ck: Check):
     for name in BATCH + STREAM:
         for _ in range(per):
             cases.append(gen_case(rng, name))
-    # fixed witnesses of the design's findings (always exercised)
+    # the inputs of the four repaired defects (F24 and companions), always exercised so that a regression is reported
     f6 = next(it.i for it in POOL if it.desc == "float(6,)")
     f62 = next(it.i for it in POOL if it.desc == "float(6, 2)")
     f61 = next(it.i for it in POOL if it.desc == "float(6, 1)")
